@@ -292,6 +292,13 @@ func (gb *gcpBalancer) UpdateClientConnState(ccs balancer.ClientConnState) error
 		gb.initializeConfig(cfg)
 	}
 
+	// Replacement SubConns of refreshes in flight take over their channels later:
+	// they must use the new addresses as well.
+	for sc := range gb.refreshingScRefs {
+		sc.UpdateAddresses(addrs)
+		sc.Connect()
+	}
+
 	if len(gb.scRefs) == 0 {
 		gb.newSubConnLocked()
 		return nil
